@@ -11,8 +11,8 @@ from .common import chunks, shrink_doc, tup
 ID = "C19"
 RULE = (
     "documents: every container of Univ(1,3) over leaves {0,'x'} and keys {a,b}, every 12th document of Univ(2,2) (thorough: "
-    "every 3rd), and hand-picked documents with falsy leaves (0,false,'',null,[],{}) and index-like keys; match queries "
-    "{$, $.*, $..*, $.a, $[1]}; every list of 1..2 (thorough 3) relative queries from a 17-query pool (names, indices, "
+    "every 3rd), and hand-picked documents with falsy leaves (0,false,'',null,[],{}) and index-like keys, 12-element arrays, strings holding JSON text; match queries "
+    "{$, $.*, $..*, $.a, $[1]}; every list of 1..2 (thorough 3) relative queries from a 21-query pool (names, indices, "
     "slices with positive step, wildcards, two-step paths, descendants), each selecting strictly below the match; lists whose "
     "per-array selections are not ascending are out of scope and skipped; three projection styles. "
     "state = distinct (document, match query, expression list, style); non-trivial = at least one projection produced"
@@ -27,7 +27,9 @@ ASSUMPTIONS = [
 MATCH_QUERIES = [Q(), Q(C(W)), Q(D(W)), Q(C(N("a"))), Q(C(I(1)))]
 REL = [Q(C(N("a"))), Q(C(N("b"))), Q(C(I(0))), Q(C(I(1))), Q(C(I(-1))), Q(C(S(0, 2, None))), Q(C(S(None, None, 2))),
        Q(C(S(1, None, None))), Q(C(W)), Q(C(N("a")), C(N("b"))), Q(C(N("a")), C(I(0))), Q(C(W), C(N("a"))),
-       Q(C(I(0)), C(N("a"))), Q(C(N("a")), C(W)), Q(C(W), C(I(1))), Q(D(N("a"))), Q(D(I(0)))]
+       Q(C(I(0)), C(N("a"))), Q(C(N("a")), C(W)), Q(C(W), C(I(1))), Q(D(N("a"))), Q(D(I(0))),
+       # indices of two digits next to smaller ones (order of a sparse array is numeric)
+       Q(C(I(2))), Q(C(I(10))), Q(C(S(8, None, None))), Q(C(N("a")), C(I(10)))]
 EXTRA = [
     {"a": 0, "b": False, "c": "", "d": None, "e": [], "f": {}},
     [0, False, "", None, [], {}],
@@ -37,6 +39,11 @@ EXTRA = [
     {"a": {"b": {"a": {"b": 1}}}, "b": [[[0]]]},
     {"a": [10, 11, 12], "b": [{"a": 1, "b": 2}, {"a": 3}]},
     [{"a": [1, {"b": 2}]}, [0, [1, [2, [3]]]]],
+    [{"a": i, "b": [i]} for i in range(12)],
+    {"a": [[i] for i in range(12)], "b": [0, 1, 2]},
+    # string values whose content is JSON text of a container: a string match is not a container
+    {"a": '{"a": 2, "b": [3, 4]}', "b": "[5, 6]"},
+    ['{"a": 1, "b": 2}', "[0, [1]]", {"a": '["x"]'}],
 ]
 
 
